@@ -2,6 +2,9 @@ package main
 
 import (
 	"fmt"
+	hg "github.com/mosaicnetworks/babble/src/hashgraph"
+	"github.com/mosaicnetworks/babble/src/net"
+	"github.com/mosaicnetworks/babble/src/peers"
 	"math"
 	"strconv"
 	"time"
@@ -60,6 +63,58 @@ func init() {
 		return sc
 	})
 
+	// BJ(A,B,Lim): an adversary holding the key of participant B (accepted as a joiner, not yet - or never - running as a
+	// node) hands validator A that key's first event (index 0, no self-parent, other-parent = A's last event) with the
+	// timestamp liarValues[Lim].
+	sched.CustomActions["BJ"] = func(c *sim.Cluster, a sched.Action) error {
+		var ferr error
+		c.Custom(fmt.Sprintf("BJ(%d,%d,%d)", a.A, a.B, a.Lim), func() error { return nil })
+		t := c.Nodes[a.A]
+		op, err := t.Store.LastEventFrom(sim.PubHex(a.A))
+		if err != nil {
+			return err
+		}
+		e := hg.NewEvent([][]byte{[]byte("early")}, nil, nil, []string{"", op}, sim.PubOf(a.B), 0)
+		e.Body.Timestamp = liarValues[a.Lim]
+		if err := e.Sign(sim.Key(a.B)); err != nil {
+			return err
+		}
+		if err := t.Node.VHashgraph().SetWireInfo(e); err != nil {
+			return err
+		}
+		w := e.ToWire()
+		_, ferr = c.ProcessRPC(a.A, "early first event of an accepted joiner", &net.EagerSyncRequest{FromID: peers.NewPeer(sim.PubHex(a.B), "", "").ID(), Events: []hg.WireEvent{w}}) // (sent by the joiner itself: the receiver builds on it)
+		return ferr
+	}
+	// liarjoin:<pos>:<val>: four validators, validator 3 lies (constant liarValues[val]); key 5 asks validator 0 to join at
+	// step 6 and is accepted, but never runs as a node: at seed position <pos> its first event, carrying the same extreme
+	// timestamp, is handed to validator 0 (before the join takes effect if pos is early enough).
+	sched.RegisterScenario("liarjoin", func(p []string) *sched.Scenario {
+		at := func(i int) int { v, _ := strconv.Atoi(p[i]); return v }
+		pos, val := at(1), at(2)
+		sc := sched.Static(4, 70)
+		var seed []sched.Action
+		for i, a := range sc.Seed {
+			if i == 6 {
+				seed = append(seed, sched.Action{K: "J", A: 5, B: 0})
+			}
+			if len(p) > 3 && at(3) > 0 && i == pos-at(3) {
+				seed = append(seed, sched.Action{K: "S", A: 2}) // one honest validator misses a few rounds
+			}
+			if len(p) > 3 && at(3) > 0 && i == pos+12 {
+				seed = append(seed, sched.Action{K: "H", A: 2})
+			}
+			if i == pos {
+				seed = append(seed, sched.Action{K: "BJ", A: 0, B: 5, Lim: val})
+			}
+			seed = append(seed, a)
+		}
+		sc.Seed = seed
+		lie := func(int) int64 { return liarValues[val] }
+		sc.Cfg.Liars = map[int]func(int) int64{3: lie, 5: lie}
+		return sc
+	})
+
 	checks["C18"] = func(args []string) int {
 		th := ev.Tier() == "thorough"
 		mons := []string{"C01", "C18"}
@@ -81,6 +136,15 @@ func init() {
 			}
 		}
 		add("otherwise honest liar, one lying event: event k=1..24 x 6 values x {n=4,n=5}", single)
+		var lj []sched.Item
+		for pos := 12; pos <= 52; pos += map[bool]int{true: 1, false: 2}[th] {
+			for _, val := range []int{0, 5} {
+				for _, off := range []int{0, 3, 6, 9} {
+					lj = append(lj, sched.Item{Scenario: fmt.Sprintf("liarjoin:%d:%d:%d", pos, val, off), Mode: "s3", Mons: mons, Suffix: 40})
+				}
+			}
+		}
+		add("one lying validator of 4 plus an accepted joiner whose first event (extreme timestamp) is sent to a validator at position p=12..52, before / after its join takes effect; one honest validator silent from p-3 / p-6 / p-9 to p+12, or not at all", lj)
 		var skews []sched.Item
 		for _, silentAt := range []int{12, 16, 20, 24, 28, 32} {
 			for _, k := range []int{4, 6, 8, 10, 12, 14, 16} {
